@@ -27,7 +27,8 @@ def payload_cells(rel):
         if id(r) in seen:
             continue
         seen.add(id(r))
-        p = getattr(r, "payload", None)
+        # leaf payloads only: a Materialization's payload slot is filled by Processor.process by design (write-once; C10/C07)
+        p = getattr(r, "payload", None) if isinstance(r, dr.LeafRelation) else None
         if isinstance(p, sql.Payload):
             out.append(("sql", str(p.from_clause), tuple(str(w) for w in p.where),
                         tuple(sorted((str(k), str(v)) for k, v in p.columns_available.items()))))
